@@ -12,9 +12,13 @@ def sh(cmd, cwd):
     print("+", " ".join(cmd), flush=True)
     r = subprocess.run(cmd, cwd=cwd, env=env)
     if r.returncode != 0:
-        sys.exit(r.returncode)
+        # not fatal: every check rebuilds what it needs against /repo's current working tree and attributes a
+        # failing build (harness, translator, model, one theorem module) to the properties it affects
+        print(f"setup: step failed with status {r.returncode} (left to the individual checks to report)", flush=True)
+    return r.returncode == 0
 sh(["cargo", "build", "--offline", "--bins"], os.path.join(VERIF, "harness"))
 sh(["cargo", "build", "--offline", "--bins", "--release"], os.path.join(VERIF, "harness"))
 sh([os.path.join(VERIF, "build", "harness-target", "debug", "extract"), "--repo", "/repo", "--out", os.path.join(VERIF, "lean", "Solstat", "Gen")], VERIF)
-sh(["lake", "build", "Solstat", "driver"], os.path.join(VERIF, "lean"))
-print("setup ok")
+sh(["lake", "build", "driver"], os.path.join(VERIF, "lean"))
+sh(["lake", "build", "Solstat", "Solstat.Props.C17Ext"], os.path.join(VERIF, "lean"))
+print("setup done")
